@@ -467,6 +467,7 @@ type HistRun struct {
 	Design   int        `json:"design"`
 	Hist     string     `json:"hist"`
 	Rep      int        `json:"rep"`
+	ExPaths  []string   `json:"-"`             // paths the example command writes (from the generators' file lists)
 	Out      string     `json:"out,omitempty"` // value of goa\'s -o flag ("" = the working directory)
 	Steps    []Step     `json:"steps"`
 	Snaps    []Snapshot `json:"-"` // after every step
@@ -481,10 +482,11 @@ var histories = map[string][]string{
 	"gen_stray_gen":                  {"gen", "stray", "gen"},
 	"gen_example_delete_example_gen": {"gen", "example", "delete", "example", "gen"},
 	"example_delete_example":         {"example", "delete", "example"},
+	"precreate_example_example":      {"precreate", "example", "example"},
 }
 
 func histNames(tier string) []string {
-	hs := []string{"gen_gen", "gen_example_edit_example", "example_gen", "gen_stray_gen", "example_delete_example"}
+	hs := []string{"gen_gen", "gen_example_edit_example", "example_gen", "gen_stray_gen", "example_delete_example", "precreate_example_example"}
 	if tier == "thorough" {
 		hs = append(hs, "gen_example_delete_example_gen")
 	}
@@ -502,7 +504,7 @@ func writeCLIModule(dir string, src string) error {
 }
 
 // expand turns the abstract history into concrete steps given the current directory.
-func expand(kind string, dir string, cur Snapshot) []Step {
+func expand(kind string, dir string, cur Snapshot, hr *HistRun) []Step {
 	switch kind {
 	case "gen", "example":
 		return []Step{{Kind: kind}}
@@ -539,8 +541,28 @@ func expand(kind string, dir string, cur Snapshot) []Step {
 			}
 			return st
 		}
-		b, _ := os.ReadFile(filepath.Join(dir, cands[0]))
-		return []Step{{Kind: "write", Path: cands[0], Content: string(b) + "\n// edited by the user\n"}}
+		// every example file gets some user content, kinds in rotation: whatever the user
+		// left there — a polite edit, an emptied file, one byte, badly formatted code with an
+		// unused import, text that is not Go — is the user's
+		var st []Step
+		for i, p := range cands {
+			b, _ := os.ReadFile(filepath.Join(dir, p))
+			st = append(st, Step{Kind: "write", Path: p, Content: userContent(i, string(b))})
+		}
+		return st
+	case "precreate":
+		// before the first example run the user already has files at (all but one of) the
+		// paths example writes: empty placeholders, one-liners, notes
+		var st []Step
+		paths := append([]string(nil), hr.ExPaths...)
+		sort.Strings(paths)
+		for i, p := range paths {
+			if i == len(paths)/2 {
+				continue // this one is missing: example must create it
+			}
+			st = append(st, Step{Kind: "write", Path: p, Content: userContent(i+1, "package placeholder\n")})
+		}
+		return st
 	case "stray":
 		// a stray file in every directory below gen/, a tampered generated file, a deleted
 		// generated file, and a file directly in gen/ (which goa does not own)
@@ -580,6 +602,32 @@ func expand(kind string, dir string, cur Snapshot) []Step {
 	return nil
 }
 
+func exPaths(r *tierAResult) []string {
+	var out []string
+	for _, f := range r.ExFlags {
+		out = append(out, f.Path)
+	}
+	return out
+}
+
+// userContent: kinds of content a user may leave in a file goa example created.
+func userContent(kind int, orig string) string {
+	switch kind % 6 {
+	case 0:
+		return orig + "\n// edited by the user\n"
+	case 1:
+		return "" // emptied, or an empty placeholder
+	case 2:
+		return "\n"
+	case 3: // not gofmt-clean, unused import, odd spacing
+		return strings.Replace(orig, "import (", "import (\n\t\"unsafe\"\n\n\n", 1) + "\n\n\nfunc   userAdded( )  {   }\n"
+	case 4:
+		return "this is not Go source <<<<\n" + orig
+	default:
+		return "// " + strings.Repeat("x", 1+kind) + "\n" + orig
+	}
+}
+
 func runHistory(dir, src string, hr *HistRun) {
 	os.RemoveAll(dir)
 	if err := writeCLIModule(dir, src); err != nil {
@@ -590,7 +638,7 @@ func runHistory(dir, src string, hr *HistRun) {
 	moddir := dir
 	dir = filepath.Join(moddir, hr.Out) // the output directory
 	for _, k := range histories[hr.Hist] {
-		for _, st := range expand(k, dir, cur) {
+		for _, st := range expand(k, dir, cur, hr) {
 			switch st.Kind {
 			case "gen", "example":
 				out, err := runGoa(moddir, st.Kind, hr.Out, hr.Rep)
@@ -649,8 +697,12 @@ func oracleHistory(d *dg.Design, hr *HistRun, fresh map[string]Snapshot) {
 	}
 	prev := Snapshot{}
 	var lastGen Snapshot
+	userWrote := map[string]string{} // path -> digest of what the user last wrote there
 	for i, st := range hr.Steps {
 		cur := hr.Snaps[i]
+		if st.Kind == "write" {
+			userWrote[st.Path] = sha([]byte(st.Content))
+		}
 		switch st.Kind {
 		case "example":
 			// never modifies a file that exists: content and mtime
@@ -733,11 +785,15 @@ func oracleHistory(d *dg.Design, hr *HistRun, fresh map[string]Snapshot) {
 			}
 			lastGen = cur
 		}
-		// every directory holds one package (the tree must still build)
+		// every directory holds one package (the tree must still build); files whose present
+		// content is the user's are the user's business
 		if st.Kind == "gen" || st.Kind == "example" {
 			pk := map[string]map[string]string{}
 			for p, r := range cur {
 				if r.Pkg == "" || strings.Contains(p, "zz_") {
+					continue
+				}
+				if uw, ok := userWrote[p]; ok && uw == r.SHA {
 					continue
 				}
 				d := filepath.ToSlash(filepath.Dir(p))
@@ -795,7 +851,14 @@ func (t *ids) path(p string) string {
 	return "[" + strings.Join(out, ";") + "]"
 }
 
+var emptySHA = sha(nil)
+
+// digest prints the content term of a file with digest h: the empty file is the empty
+// chunk list, anything else one opaque chunk.
 func (t *ids) digest(h string) string {
+	if h == emptySHA {
+		return ""
+	}
 	id, ok := t.dig[h]
 	if !ok {
 		id = len(t.dig) + 1
@@ -1346,7 +1409,7 @@ func main() {
 		src := PrintDesign(designs[di])
 		for _, h := range hs {
 			for k := 0; k < procs; k++ {
-				jobs = append(jobs, &job{di: di, hr: &HistRun{Design: di, Hist: h, Rep: k, Out: outOf[di]}, src: src})
+				jobs = append(jobs, &job{di: di, hr: &HistRun{Design: di, Hist: h, Rep: k, Out: outOf[di], ExPaths: exPaths(ta[di])}, src: src})
 			}
 		}
 	}
